@@ -84,6 +84,7 @@ class ReactiveClient(K.Peer):
         self.resp_off = 0
         self.responses: List[bytes] = []
         self.all_sent_iter: Optional[int] = None
+        self.shut_after_send = False      # half-close as soon as the last request byte is out (and keep reading)
 
     def _scan_responses(self) -> None:
         while True:
@@ -127,6 +128,8 @@ class ReactiveClient(K.Peer):
                 self.seg_i += 1
                 if self.seg_i >= len(self.segments):
                     self.all_sent_iter = self.world.iter if self.world else None
+                    if self.shut_after_send:
+                        self.do_shut()
             return
         self.drain()
 
